@@ -224,6 +224,18 @@ Theorem c17_reject_missing_filter :
 Proof. exact c17_reject_missing_filter_holds. Qed.
 Print Assumptions c17_reject_missing_filter.
 
+(* views: a [header] whose name exactly equals that of an earlier section is rejected at its own line (the
+   results are keyed by view name); an accepted file has pairwise different view names *)
+Theorem c17_reject_duplicate_view_name :
+  forall pyparse ls,
+    (forall s1 n name lines s2, sections_v ls = s1 ++ (n, name, lines) :: s2 -> In name (map sec_name s1) ->
+       is_ok (parse_views pyparse ls) = false) /\
+    (forall n, parse_views pyparse ls = Err n VDuplicateName ->
+       exists s1 name lines s2, sections_v ls = s1 ++ (n, name, lines) :: s2 /\ In name (map sec_name s1)) /\
+    (forall f, parse_views pyparse ls = Ok f -> NoDup (map v_name (f_views f))).
+Proof. exact c17_reject_duplicate_view_name_holds. Qed.
+Print Assumptions c17_reject_duplicate_view_name.
+
 (* ============================ no silent drop ================================================ *)
 (* "Every non-blank, non-comment line contributes to the result or causes an error", stated
    extensionally: in an accepted file no such line can be overwritten with garbage ("%%%": not blank, not a
@@ -315,7 +327,12 @@ Example c17_example_rejections :
   parse_views p ["filter: x"] = Err 1 VFilterOutside /\
   parse_merchants p ["v = 1"; "category: Lost"; "[A]"; "match: m"; "category: c"] = Err 2 EOutside /\
   parse_merchants p ["v = 1"; "x = )("; "[A]"; "match: x"; "category: c"] = Err 2 EInvalidTop /\
-  lr_reported (get_all_rules p (fun _ => []) ["[Uber]"; "category: Transport"]) = Some 1.
+  lr_reported (get_all_rules p (fun _ => []) ["[Uber]"; "category: Transport"]) = Some 1 /\
+  parse_views p ["[V]"; "filter: x"; "[v]"; "filter: y"; " [V] "; "filter: z"] = Err 5 VUnexpected /\
+  parse_views p ["[V]"; "filter: x"; "[v]"; "filter: y"; "[ V ]  "; "filter: z"] = Err 5 VDuplicateName /\
+  parse_views p ["Big = 1"; "[V]"; "filter: x"; "bIG = 2"; "BIG = 3"]
+  = Ok {| f_globals := [("big", "1")];
+          f_views := [ {| v_name := "V"; v_filter := "x"; v_desc := None; v_vars := [("big", "3")]; v_line := 2 |} ] |}.
 Proof. vm_compute. repeat split; reflexivity. Qed.
 
 (* the hypotheses of the key-case and permutation theorems are satisfiable by non-trivial cases *)
